@@ -298,7 +298,7 @@ theorem eigenvalues_spec (sq rnd : Rat → Rat) (n : Nat) (M : Mat) (l : List Ra
   exact ⟨A', by omega, hj2, hit, hc, hl⟩
 
 /-- **the model's `Householder_Matrix` (no rounding) is the reflector `1 − 2uuᵀ` of `u = w/‖w‖`** -/
-theorem toM_householder (sq : Rat → Rat) (k : Nat) (A H : Mat) (h : householder sq id k A = some H) :
+theorem toM_householder_refl (sq : Rat → Rat) (k : Nat) (A H : Mat) (h : householderRefl sq id k A = some H) :
     hhNw sq k A ≠ 0 ∧ toM k H = reflector (fun i => hhWvec sq k A i / hhNw sq k A) := by
   have hw : ∀ i, i < k → ((List.range k).map fun i => get A i 0 - hhAlpha sq k A * delta i 0).getD i 0
       = get A i 0 - hhAlpha sq k A * delta i 0 := by
@@ -311,7 +311,7 @@ theorem toM_householder (sq : Rat → Rat) (k : Nat) (A H : Mat) (h : householde
     apply Finset.sum_congr rfl
     intro i _
     rw [hw i i.2]; rfl
-  simp only [householder] at h
+  simp only [householderRefl] at h
   rw [hsum] at h
   split at h
   · simp at h
@@ -331,10 +331,10 @@ theorem toM_householder (sq : Rat → Rat) (k : Nat) (A H : Mat) (h : householde
     simp only [hhWvec, delta, Matrix.one_apply, Fin.ext_iff]
 
 /-- … hence symmetric and orthogonal when the norm is the exact root -/
-theorem toM_householder_orthogonal (sq : Rat → Rat) (k : Nat) (A H : Mat) (h : householder sq id k A = some H)
+theorem toM_householder_orthogonal_refl (sq : Rat → Rat) (k : Nat) (A H : Mat) (h : householderRefl sq id k A = some H)
     (hsq : hhNw sq k A * hhNw sq k A = sumTo k fun i => hhW sq k A i * hhW sq k A i) :
     (toM k H)ᵀ = toM k H ∧ toM k H * toM k H = 1 := by
-  obtain ⟨hne, hH⟩ := toM_householder sq k A H h
+  obtain ⟨hne, hH⟩ := toM_householder_refl sq k A H h
   rw [hH]
   apply householder_orthogonal_symmetric
   simp only [dotProduct, hhWvec]
@@ -362,12 +362,12 @@ theorem hhAlpha_sq (sq : Rat → Rat) (k : Nat) (A : Mat)
 
 /-- **the model's reflector maps the first column of the sub-matrix to `alpha·e₁`**
     (`householder_maps_to_e1` applied to the list model) -/
-theorem householder_maps_col (sq : Rat → Rat) (k : Nat) (A P : Mat) (hk : 0 < k)
-    (hP : householder sq id k A = some P)
+theorem householder_maps_col_refl (sq : Rat → Rat) (k : Nat) (A P : Mat) (hk : 0 < k)
+    (hP : householderRefl sq id k A = some P)
     (hα : sq (colSq k A) * sq (colSq k A) = colSq k A)
     (hN : sq (wSq sq k A) * sq (wSq sq k A) = wSq sq k A) :
     toM k P *ᵥ (fun i : Fin k => get A i 0) = hhAlpha sq k A • Pi.single (⟨0, hk⟩ : Fin k) 1 := by
-  obtain ⟨hne, hH⟩ := toM_householder sq k A P hP
+  obtain ⟨hne, hH⟩ := toM_householder_refl sq k A P hP
   have hw : (fun i : Fin k => hhWvec sq k A i)
       = (fun i : Fin k => get A i 0) - hhAlpha sq k A • Pi.single (⟨0, hk⟩ : Fin k) 1 := by
     funext i
@@ -387,8 +387,8 @@ theorem householder_maps_col (sq : Rat → Rat) (k : Nat) (A P : Mat) (hk : 0 < 
     simp only [dotProduct, hhWvec, hhW]
 
 /-- … so the product `P_sub·R_sub` has a zero first column below its first entry -/
-theorem householder_col_zero (sq : Rat → Rat) (k : Nat) (A P : Mat)
-    (hP : householder sq id k A = some P)
+theorem householder_col_zero_refl (sq : Rat → Rat) (k : Nat) (A P : Mat)
+    (hP : householderRefl sq id k A = some P)
     (hα : sq (colSq k A) * sq (colSq k A) = colSq k A)
     (hN : sq (wSq sq k A) * sq (wSq sq k A) = wSq sq k A) :
     ∀ a, 0 < a → a < k → get (mul id k P A) a 0 = 0 := by
@@ -397,10 +397,48 @@ theorem householder_col_zero (sq : Rat → Rat) (k : Nat) (A P : Mat)
   have h1 : get (mul id k P A) a 0 = (toM k P * toM k A) ⟨a, hak⟩ ⟨0, hk⟩ := by
     rw [← toM_mul]; rfl
   have h2 : (toM k P * toM k A) ⟨a, hak⟩ ⟨0, hk⟩ = (toM k P *ᵥ (fun i : Fin k => get A i 0)) ⟨a, hak⟩ := rfl
-  rw [h1, h2, householder_maps_col sq k A P hk hP hα hN]
+  rw [h1, h2, householder_maps_col_refl sq k A P hk hP hα hN]
   have : (⟨a, hak⟩ : Fin k) ≠ ⟨0, hk⟩ := by
     intro h; rw [Fin.ext_iff] at h; simp at h; omega
   simp [this]
+
+/-- `Householder_Matrix` as coded since e9c6d4b: the identity for a zero column, else the reflector -/
+theorem householder_cases (sq rnd : Rat → Rat) (k : Nat) (A P : Mat) (h : householder sq rnd k A = some P) :
+    (sq (colSq k A) = 0 ∧ P = ident k) ∨ (sq (colSq k A) ≠ 0 ∧ householderRefl sq rnd k A = some P) := by
+  unfold householder at h
+  split at h
+  · rename_i h0
+    left
+    exact ⟨h0, by simpa using h.symm⟩
+  · rename_i h0
+    right
+    exact ⟨h0, h⟩
+
+/-- every `P_sub` the loop uses is symmetric and orthogonal — the identity of a zero column included -/
+theorem toM_householder_orthogonal (sq : Rat → Rat) (k : Nat) (A H : Mat) (h : householder sq id k A = some H)
+    (hsq : hhNw sq k A * hhNw sq k A = sumTo k fun i => hhW sq k A i * hhW sq k A i) :
+    (toM k H)ᵀ = toM k H ∧ toM k H * toM k H = 1 := by
+  rcases householder_cases sq id k A H h with ⟨_, rfl⟩ | ⟨_, hr⟩
+  · rw [toM_ident]; simp
+  · exact toM_householder_orthogonal_refl sq k A H hr hsq
+
+/-- `P_sub·R_sub` has a zero first column below its first entry — for the identity of a zero column
+    because the column is zero (`Householder_Matrix` then "maps" `x = 0` to `alpha·e₁` with `alpha = 0`) -/
+theorem householder_col_zero (sq : Rat → Rat) (k : Nat) (A P : Mat)
+    (hP : householder sq id k A = some P)
+    (hα : sq (colSq k A) * sq (colSq k A) = colSq k A)
+    (hN : sq (wSq sq k A) * sq (wSq sq k A) = wSq sq k A) :
+    ∀ a, 0 < a → a < k → get (mul id k P A) a 0 = 0 := by
+  rcases householder_cases sq id k A P hP with ⟨h0, rfl⟩ | ⟨_, hr⟩
+  · intro a ha0 hak
+    have hc : colSq k A = 0 := by rw [← hα, h0]; ring
+    have hz := sumTo_sq_eq_zero k (fun c => get A c 0) hc
+    have hk : 0 < k := by omega
+    have h1 : get (mul id k (ident k) A) a 0 = (toM k (ident k) * toM k A) ⟨a, hak⟩ ⟨0, hk⟩ := by
+      rw [← toM_mul]; rfl
+    rw [h1, toM_ident, Matrix.one_mul]
+    exact hz a hak
+  · exact householder_col_zero_refl sq k A P hr hα hN
 
 /-- **each step's `P`** (block embedding `[[1,0],[0,P_sub]]` of the reflector of the current
     sub-matrix) **is symmetric and orthogonal** -/
@@ -456,9 +494,9 @@ theorem wSq_eq (sq : Rat → Rat) (k : Nat) (A : Mat) (hk : 0 < k) :
 
 /-- **`Householder_Matrix` does not divide by zero on a non-zero column** (exact roots): with the
     coded sign of `alpha` there is no cancellation in `x − alpha·e₁` (`hh_no_cancellation`). -/
-theorem householder_isSome (sq : Rat → Rat) (k : Nat) (A : Mat) (hk : 0 < k)
+theorem householder_isSome_refl (sq : Rat → Rat) (k : Nat) (A : Mat) (hk : 0 < k)
     (h1 : SqAt sq (colSq k A)) (h2 : SqAt sq (wSq sq k A)) (h0 : colSq k A ≠ 0) :
-    ∃ P, householder sq id k A = some P := by
+    ∃ P, householderRefl sq id k A = some P := by
   have hnx : 0 < sq (colSq k A) := by
     rcases lt_or_eq_of_le h1.sq_nonneg with h | h
     · exact h
@@ -482,9 +520,23 @@ theorem householder_isSome (sq : Rat → Rat) (k : Nat) (A : Mat) (hk : 0 < k)
     apply sumTo_congr
     intro i hi
     rw [hwl i hi]; rfl
-  simp only [householder]
+  simp only [householderRefl]
   rw [hsum, if_neg (show ¬ sq (sumTo k fun i => hhW sq k A i * hhW sq k A i) = 0 from hne)]
   exact ⟨_, rfl⟩
+
+/-- **`Householder_Matrix` always returns** (exact roots): the identity for a zero column, the reflector
+    otherwise — so `QR_Decomposition` returns for singular matrices too (e9c6d4b). -/
+theorem householder_isSome (sq : Rat → Rat) (k : Nat) (A : Mat) (hk : 0 < k)
+    (h1 : SqAt sq (colSq k A)) (h2 : SqAt sq (wSq sq k A)) :
+    ∃ P, householder sq id k A = some P := by
+  by_cases h0 : sq (colSq k A) = 0
+  · exact ⟨ident k, by unfold householder; rw [if_pos (show sq (sumTo k fun i => get A i 0 * get A i 0) = 0 from h0)]⟩
+  · have hc : colSq k A ≠ 0 := by
+      intro hc; apply h0
+      have := h1.sq_mul; rw [hc] at this
+      rw [hc]; exact mul_self_eq_zero.mp this
+    obtain ⟨P, hP⟩ := householder_isSome_refl sq k A hk h1 h2 hc
+    exact ⟨P, by unfold householder; rw [if_neg (show ¬ sq (sumTo k fun i => get A i 0 * get A i 0) = 0 from h0)]; exact hP⟩
 
 /-- **a non-singular matrix never meets a zero pivot column**: under the loop invariant, if the
     first column of `R_submatrix` vanished, `R` (hence `M = Q·R`) would be singular. -/
@@ -531,8 +583,8 @@ theorem qrLoop_inv (sq : Rat → Rat) (n : Nat) (M : Mat) (steps i : Nat) (hn : 
       exact ih (i + 1) (by omega) _ _ _ (qr_step_inv sq n i (by omega) M Q R Rsub P inv hP h1.sq_mul h2.sq_mul)
         (h3 P hP) h
 
-/-- … and for a non-singular matrix it does return (no zero pivot column is met) -/
-theorem qrLoop_isSome (sq : Rat → Rat) (n : Nat) (M : Mat) (hdet : (toM n M).det ≠ 0)
+/-- … and it always returns (since e9c6d4b also when a zero pivot column is met: singular matrices) -/
+theorem qrLoop_isSome (sq : Rat → Rat) (n : Nat) (M : Mat)
     (steps i : Nat) (hn : i + steps = n)
     (Q R Rsub : Mat) (inv : QRInv n i M Q R Rsub) (hsq : qrSqOK sq n i steps Rsub) :
     ∃ Q' R', qrLoop sq id n i steps Q R Rsub = some (Q', R') := by
@@ -542,7 +594,6 @@ theorem qrLoop_isSome (sq : Rat → Rat) (n : Nat) (M : Mat) (hdet : (toM n M).d
     obtain ⟨h1, h2, h3⟩ := hsq
     have hi : i < n := by omega
     obtain ⟨P, hP⟩ := householder_isSome sq (n - i) Rsub (by omega) h1 h2
-      (colSq_ne_zero_of_det n i hi M Q R Rsub inv hdet)
     obtain ⟨Q', R', h⟩ := ih (i + 1) (by omega) _ _ _
       (qr_step_inv sq n i hi M Q R Rsub P inv hP h1.sq_mul h2.sq_mul) (h3 P hP)
     refine ⟨Q', R', ?_⟩
@@ -563,15 +614,34 @@ theorem qr_list_model_of_some (sq : Rat → Rat) (n : Nat) (M : Mat) (hsq : qrSq
   obtain ⟨h1, h2, h3⟩ := qrLoop_inv sq n M n 0 (by omega) _ _ _ (qrInv_init n M) hsq Q R h
   exact ⟨h1, h2, fun a b hba => h3 a b a.2 hba⟩
 
-/-- **QR_Decomposition, list model, end to end**: for every non-singular square matrix over ℚ for
-    which the square roots taken by the run exist rationally, the model (no rounding) returns
-    `(Q, R)` with `Q·R = M`, `Q` orthogonal and `R` upper triangular. -/
-theorem qr_list_model (sq : Rat → Rat) (n : Nat) (M : Mat) (hdet : (toM n M).det ≠ 0)
-    (hsq : qrSqOK sq n 0 n M) :
+/-- **QR_Decomposition, list model, end to end**: for **every** square matrix over ℚ — singular ones
+    included since e9c6d4b (then some `R k k = 0`) — for which the square roots taken by the run exist
+    rationally, the model (no rounding) returns `(Q, R)` with `Q·R = M`, `Q` orthogonal and `R` upper triangular. -/
+theorem qr_list_model (sq : Rat → Rat) (n : Nat) (M : Mat) (hsq : qrSqOK sq n 0 n M) :
     ∃ Q R, qrDecomposition sq id n M = some (Q, R) ∧
       toM n Q * toM n R = toM n M ∧ (toM n Q)ᵀ * toM n Q = 1 ∧ ∀ a b : Fin n, b < a → toM n R a b = 0 := by
-  obtain ⟨Q, R, h⟩ := qrLoop_isSome sq n M hdet n 0 (by omega) _ _ _ (qrInv_init n M) hsq
+  obtain ⟨Q, R, h⟩ := qrLoop_isSome sq n M n 0 (by omega) _ _ _ (qrInv_init n M) hsq
   exact ⟨Q, R, h, qr_list_model_of_some sq n M hsq Q R h⟩
+
+/-- for a singular matrix the triangular factor has a zero on its diagonal (and only then) -/
+theorem qr_list_model_singular (sq : Rat → Rat) (n : Nat) (M Q R : Mat) (hsq : qrSqOK sq n 0 n M)
+    (h : qrDecomposition sq id n M = some (Q, R)) :
+    (toM n M).det = 0 ↔ ∃ k : Fin n, toM n R k k = 0 := by
+  obtain ⟨hprod, horth, hup⟩ := qr_list_model_of_some sq n M hsq Q R h
+  have hQ : (toM n Q).det ≠ 0 := by
+    intro h0
+    have := congrArg Matrix.det horth
+    rw [det_mul, det_transpose, h0, mul_zero, det_one] at this
+    exact zero_ne_one this
+  have hR : (toM n R).det = ∏ k : Fin n, toM n R k k :=
+    Matrix.det_of_upperTriangular (fun a b hba => hup a b hba)
+  rw [← hprod, det_mul, mul_eq_zero, hR, Finset.prod_eq_zero_iff]
+  constructor
+  · rintro (h0 | ⟨k, _, hk⟩)
+    · exact absurd h0 hQ
+    · exact ⟨k, hk⟩
+  · rintro ⟨k, hk⟩
+    exact Or.inr ⟨k, Finset.mem_univ k, hk⟩
 
 theorem qrSqOK_of_check (sq : Rat → Rat) (n : Nat) (steps i : Nat) (Rsub : Mat)
     (h : qrSqCheck sq n i steps Rsub = true) : qrSqOK sq n i steps Rsub := by
